@@ -4,7 +4,7 @@ from .progfam import *
 
 def run(tier, seed):
     return run_prog_property(
-        "C05", ["witness", "compile", "shared"], tier, seed, verdict_fams=("shared",),
+        "C05", ["witness", "compile", "shared", "fold"], tier, seed, verdict_fams=("shared", "fold"),
         rule="MC_Witness.tla: programs with 0..8 witnesses whose declared types rotate through classes of layout-equal but "
              "different types ({u16,(u8,u8),[u8;2],((u4,u4),u8)}, {bool,u1,Either<(),()>,Option<()>}, {u8,(u4,u4),[u4;2]}, "
              "{Option<u8>,Either<(),u8>}); every witness is compared with its own literal. Per program the maps: exact, exact + "
@@ -12,5 +12,7 @@ def run(tier, seed):
              "of its layout class, every pair of names swapped, the empty map. The rule `Err iff a supplied declared name has "
              "another type (nominal)` is the TLA+ operator SatisfyOK; on Ok with all names present the verdict of the reference "
              "semantics must be observed (a swapped pair of same-typed values must fail). The C01 family adds `type-correct "
-             "assignments are never rejected`.",
+             "assignments are never rejected`. List witnesses are observed through MC_Fold.tla: the list (every length; elements "
+             "u8, (u1,u8), Option<u2>, (), rows List<u8,4>, pairs with a component the program never reads) is supplied as a "
+             "witness and an order-sensitive fold of it must give the value the reference fold gives on the SUPPLIED list.",
         assumptions=BASE_ASSUMPTIONS + ["the outcome of satisfy for a map that omits a used witness is not constrained by the property"])
